@@ -4,10 +4,16 @@
      encoder_layered.go  EncodeLayered  (and encoder.go Encode): BypassInitEnc / RestartInitEnc
        after a terminated pass, BypassFlushEnc / ErtermEnc / FlushToOutput at the terminating
        passes, context reset, per-pass Rate / ActualBytes, normalizePassRates, Len;
-     decoder.go  DecodeLayeredWithMode (per codeword segment: segment look-ahead with
-       isTerminatingPass, slices of data by the pass lengths, fresh MQ / raw decoder per
-       segment, contexts preserved or reset) and DecodeWithOptions / DecodeWithBitplane (one
-       MQ decoder over the whole data; raw passes there call RawDecode on the live MQ decoder).
+     decoder.go  DecodeLayeredWithMode as of /repo b319f17 (the repair of finding F18: per
+       codeword segment - segment look-ahead with isTerminatingPass, slices of data by the pass
+       lengths, fresh MQ / raw decoder per segment, contexts preserved or reset; before the
+       repair a LAZY style without TERMALL went to DecodeWithOptions and the 1x1 block [16] with
+       style 0x01 decoded as 18) and DecodeWithOptions / DecodeWithBitplane (one MQ decoder over
+       the whole data; raw passes there still call RawDecode on the live MQ decoder, modelled
+       by raw_on_dec).
+   Known and reproduced by this model (outside C20, which codes all passes): when numPasses
+   stops on a non-terminated bypass pass the encoder ends the stream with the MQ Flush(), which
+   garbles the tail of that pass (1x2 block [16,0], style 0x01, 11 of 13 passes -> [16,-1]).
    Used for the byte-exact correspondence run only; no theorem of the t1 area depends on the
    MQ proofs. *)
 From V Require Import Common.Base T1.T1Store T1.T1Ctx T1.T1Model.
